@@ -121,8 +121,9 @@ func byteComps() []ocomp {
 
 // longValueNames: names around the 253/256-byte value-length boundary whose value bytes are
 // themselves a run of encoded empty generic components, next to the name obtained by reading
-// those bytes as components. Used by C14.eq only (Equal ⇔ Bytes equal).
-func longValueNames() []oname {
+// those bytes as components; plus near-identical long-value names (see below). Used by C14.eq only
+// (Equal ⇔ Bytes equal, Bytes decodes back to the name).
+func longValueNames(wide bool) []oname {
 	var r []oname
 	for _, l := range []int{250, 252, 254, 256, 258} {
 		v := bytes.Repeat([]byte{0x08, 0x00}, l/2)
@@ -135,6 +136,37 @@ func longValueNames() []oname {
 		r = append(r, oname{{8, []byte{byte(l >> 8)}}, {8, v}})
 	}
 	r = append(r, oname{}, oname{{8, nil}}, oname{{8, []byte{0}}})
+	// names that differ only in the first / last / last two bytes of a long component, the long
+	// component being the only one, the last of two, or the first of two; every value length
+	// around the 253 (one-byte → three-byte length) boundary, and around 65536 when wide is set
+	a := ocomp{8, []byte("a")}
+	variants := func(l int) [][]byte {
+		base := make([]byte, l)
+		for i := range base {
+			base[i] = byte(i%251 + 1)
+		}
+		mod := func(f func(v []byte)) []byte { v := append([]byte(nil), base...); f(v); return v }
+		return [][]byte{base,
+			mod(func(v []byte) { v[l-1] ^= 0xff }),
+			mod(func(v []byte) { v[l-2] ^= 0xff }),
+			mod(func(v []byte) { v[l-1] ^= 0xff; v[l-2] ^= 0xff }),
+			mod(func(v []byte) { v[0] ^= 0xff }),
+		}
+	}
+	for l := 250; l <= 258; l++ {
+		for _, t := range []uint64{8, 1, 253} {
+			for _, v := range variants(l) {
+				r = append(r, oname{{t, v}}, oname{a, {t, v}}, oname{{t, v}, a})
+			}
+		}
+	}
+	if wide {
+		for l := 65533; l <= 65538; l++ {
+			for _, v := range variants(l) {
+				r = append(r, oname{{8, v}}, oname{a, {8, v}})
+			}
+		}
+	}
 	return r
 }
 
